@@ -121,6 +121,9 @@ pub struct LifeCfg {
     pub horizon: Option<i64>,
     /// 64 GiB sectors (FIL-scale pledges and penalties) instead of 2 KiB ones
     pub big: bool,
+    /// one partition per message and per early-termination processing call (addressed_partitions_max = 1):
+    /// a fault time-out over two partitions leaves a backlog of unprocessed early terminations
+    pub backlog: bool,
     /// fault class F2: every nested send of every end-of-epoch tick is failed (one at a time);
     /// afterwards the walk continues in recovery mode (default behaviour only, generic oracles)
     pub tick_faults: bool,
@@ -609,6 +612,10 @@ impl Life {
         Ok(())
     }
 
+    fn post_chunk(&self) -> usize {
+        if self.cfg.backlog { 1 } else { 3 }
+    }
+
     fn mk_base(&self, vm: &Vm, cast: &MinerCast, name: &str, idx: usize) -> LifeM {
         let v = view(vm, cast.m).unwrap();
         let d0 = (v.dl_info.index + 2) % 4;
@@ -714,9 +721,11 @@ impl Life {
                 if prove && v.dl_info.open == vm.epoch() {
                     let parts = Self::default_post_parts(&v);
                     if !parts.is_empty() {
-                        let r = submit_post(vm, cast.w, cast.m, v.dl_info.index, &parts, false);
-                        assert!(r.ok(), "SETUP-FAILED PoSt: {}", r.tree());
-                        Self::model_post(&mut m, &v, v.dl_info.index, &parts, vm.epoch());
+                        for chunk in parts.chunks(self.post_chunk()) {
+                            let r = submit_post(vm, cast.w, cast.m, v.dl_info.index, chunk, false);
+                            assert!(r.ok(), "SETUP-FAILED PoSt: {}", r.tree());
+                            Self::model_post(&mut m, &v, v.dl_info.index, chunk, vm.epoch());
+                        }
                     }
                 }
                 let pre = view(vm, cast.m).unwrap();
@@ -801,7 +810,7 @@ impl Scenario for Life {
     }
 
     fn worker(&self, store: &Store) -> W {
-        let vm = Vm::genesis(store.clone(), if self.cfg.big { big_policy() } else { small_policy() });
+        let vm = Vm::genesis(store.clone(), if self.cfg.big { big_policy() } else if self.cfg.backlog { backlog_policy() } else { small_policy() });
         let cast = setup_with(&vm, true, self.cfg.poor.clone());
         let mut cast = cast;
         let mut deposits = BTreeMap::new();
@@ -983,7 +992,7 @@ impl Scenario for Life {
             Act::Advance => {
                 if di.open == now && m.suppressed != Some(now) {
                     let parts = Self::default_post_parts(&before);
-                    for chunk in parts.chunks(3) {
+                    for chunk in parts.chunks(self.post_chunk()) {
                         let pre_msg = view(vm, c.m).unwrap();
                         let r = submit_post(vm, c.w, c.m, di.index, chunk, false);
                         if let Err(e) = all_ok(&r) {
